@@ -221,11 +221,17 @@ func C18(r *core.Run) {
 			"outer/regex-assembly/123456.ra": "outerroot\n", "outer/regex-assembly/include/": "", "outer/rules/": "",
 			"outer/a/b/regex-assembly/123456.ra": "innerroot\n", "outer/a/b/c/d/e/": "", "outer/a/x/y/z/": "", "outer/p/q/r/s/": "",
 			"sibling/m/n/": "", "outer/a/b/regex-assembly/include/deep/": "", "outer/with blank/sub dir/": "", "outer/a/b/ünï/": "",
+			// a root whose regex-assembly is a symbolic link to a directory elsewhere, a root reached through a linked
+			// directory, and a dangling link called regex-assembly (contains nothing: not a root)
+			"outer/shared-assembly/123456.ra": "linkedroot\n", "outer/linked/regex-assembly": core.LinkPrefix + "../shared-assembly", "outer/linked/sub/deep/": "",
+			"outer/alias": core.LinkPrefix + "a/b", "outer/p/q/regex-assembly": core.LinkPrefix + "nowhere",
+			"standalone/regex-assembly": core.LinkPrefix + "../outer/shared-assembly", "standalone/x/": "",
 		}
 		return t
 	}
 	starts := []string{"outer", "outer/a", "outer/a/b", "outer/a/b/c", "outer/a/b/c/d", "outer/a/b/c/d/e", "outer/a/x", "outer/a/x/y/z", "outer/p", "outer/p/q/r/s",
-		"outer/regex-assembly", "outer/regex-assembly/include", "outer/rules", "outer/with blank/sub dir", "outer/a/b/ünï", "outer/a/b/regex-assembly/include/deep", "sibling", "sibling/m/n", "."}
+		"outer/regex-assembly", "outer/regex-assembly/include", "outer/rules", "outer/with blank/sub dir", "outer/a/b/ünï", "outer/a/b/regex-assembly/include/deep", "sibling", "sibling/m/n", ".",
+		"outer/linked", "outer/linked/sub", "outer/linked/sub/deep", "outer/alias", "outer/alias/c/d", "outer/p/q", "outer/p/q/r", "standalone", "standalone/x"}
 	nearest := func(sb, start string) string {
 		cur := filepath.Clean(filepath.Join(sb, start))
 		for {
